@@ -36,6 +36,7 @@ COVFLAGS = ["-cover", "-coverpkg=github.com/goblimey/go-ntrip/..."] if COVER_DIR
 if COVER_DIR:
     os.makedirs(COVER_DIR, exist_ok=True)
     GOENV["GOCOVERDIR"] = COVER_DIR
+    os.environ["GOCOVERDIR"] = COVER_DIR   # binaries started without an explicit environment (run_lines, Popen)
 
 MODEL_BIN = os.path.join(OCAML, "_build", "default", "driver.exe")
 IMPL_BIN = os.path.join(HARNESS, "bin", "impl")
